@@ -19,7 +19,8 @@ RULE = ('texts: (a) ALL strings up to length 8 (quick; 87,381 strings) / 10 (tho
         '(block length 3..17, 1 <= offset <= bytes produced, stream consumed exactly); reference bytewise '
         'decoder. Non-trivial = the stream has >= 1 block and >= 1 escaped literal, or the case is from '
         '(c)/(d)/(f); distinct by text/stream.'
-        ' Buffers returned by compress_code/get_bytes_from_code are overwritten by the harness once copied and the same text is compressed again, so results that share storage with earlier results show up as wrong output.')
+        ' Buffers returned by compress_code/get_bytes_from_code are overwritten by the harness once copied and the same text is compressed again, so results that share storage with earlier results show up as wrong output.'
+        ' Part "edge": texts whose stream ends within a few bytes of the code area\'s capacity (incl. an exact fill ending in a two-byte token; the returned area must be 0x3d00 bytes) and repetitive texts of 32767/32768/32769 characters (thorough: up to 65535).')
 ASSUMPTIONS = ['texts containing NUL are outside the domain (the code area is NUL-terminated/stripped text) and are '
                'not generated; texts that themselves end with the literal 0.1.7 compatibility suffix are excluded '
                '(indistinguishable from an injected suffix); both are counted',
